@@ -375,7 +375,7 @@ def run(tier: str, replay: str | None = None):
             attributed = False
             if "model" in r and not [k for k in r["obs"] if r["obs"][k] != r["model"][k]]:
                 cl = r["clauses"]
-                for fid, cond in (("C04-literal-dedup-unsound", set(bad) <= {"sound"} and cl["literal_dedup"] and not cl["strict"]),
+                for fid, cond in (
                                   ("C04-newtype-accepts-supertype", set(bad) <= {"sound"} and cl["newtype"] and not cl["strict"]),
                                   ):
                     if cond and fid in findings:
